@@ -12,6 +12,10 @@ func init() {
 		var all []scn
 		// deterministic witness of the known wrap finding
 		all = append(all, amtInScn(1000000, 0, -1000001))
+		// the exploitable instance (reported by a reviewing sub-agent): the negative premium makes the claim amount
+		// 2^64-k sat, and k is chosen so that (2^64-k)*1000 wraps onto a perfectly payable invoice of 1 000 000 sat
+		// for a 100 000 sat swap with a 1 % limit
+		all = append(all, amtOutScn(100000, 10000, -2305843009212793952, 500, 500, 5000000000))
 		for i := 0; i < n; i++ {
 			all = append(all, genAmounts(r))
 		}
